@@ -151,7 +151,7 @@ func TestRegressPinned(t *testing.T) {
 	for _, p := range regressCases() {
 		p := p
 		t.Run(p.name, func(t *testing.T) {
-			runAndRecord(t, p.c)
+			runAndRecord(t, p.c, true)
 		})
 	}
 }
@@ -314,6 +314,8 @@ func FuzzC21(f *testing.F) {
 		if hx.Known(KnownSepInNames) && c.collidesKnown() {
 			t.Skip("input class of a known finding")
 		}
-		runAndRecord(t, c)
+		// no journal here: the fuzz workers are separate processes sharing one journal file, and the
+		// fuzzer saves the failing input itself (testdata/fuzz/FuzzC21)
+		runAndRecord(t, c, false)
 	})
 }
